@@ -52,17 +52,20 @@ def seeded_cfg(name, seed):
 
 def model_check(ctx, cov):
     cfg = "VersionScript_quick.cfg" if ctx.quick else "VersionScript_thorough.cfg"
-    r = tlc.run_tlc("MCVersionScript", seeded_cfg(cfg, ctx.seed), workers=8, timeout=900 if ctx.quick else 2400, jvm_opts=GC)
+    r, rs, rb = symgen.tlc_parallel([
+        (("MCVersionScript", seeded_cfg(cfg, ctx.seed)), dict(workers=6, timeout=900 if ctx.quick else 2400, jvm_opts=GC)),
+        (("MCVersionScript", "mc/VersionScript_strict.cfg"), dict(workers=1, timeout=900, coverage=False, jvm_opts=GC)),
+        (("MCVersionScript", "mc/VersionScript_broken.cfg"), dict(workers=1, timeout=900, coverage=False, jvm_opts=GC)),
+    ])
     runs = [{"cfg": cfg, **r.summary()}]
     if not r.ok:
         raise ToolError(f"VersionScript model check failed ({cfg}): {r.violated} {r.error_text}\n{r.trace_text[:3000]}\n{r.out[-1500:]}")
     if tlc.zero_coverage_actions(r, ["Assign"]):
         raise ToolError("vacuous model run: Assign never taken")
-    for cfgname, inv in (("mc/VersionScript_strict.cfg", "Strict"), ("mc/VersionScript_broken.cfg", "BrokenRule")):
-        rb = tlc.run_tlc("MCVersionScript", cfgname, workers=4, timeout=600, coverage=False, jvm_opts=GC)
-        if rb.ok or rb.violated != inv:
-            raise ToolError(f"anti-vacuity run {cfgname} did not report {inv}: ok={rb.ok} violated={rb.violated} {rb.error_text}")
-        runs.append({"cfg": cfgname, "expected_violation": rb.violated, "states_to_find": rb.distinct})
+    for rx, cfgname, inv in ((rs, "mc/VersionScript_strict.cfg", "Strict"), (rb, "mc/VersionScript_broken.cfg", "BrokenRule")):
+        if rx.ok or rx.violated != inv:
+            raise ToolError(f"anti-vacuity run {cfgname} did not report {inv}: ok={rx.ok} violated={rx.violated} {rx.error_text}")
+        runs.append({"cfg": cfgname, "expected_violation": rx.violated, "states_to_find": rx.distinct})
     cov["states"], cov["transitions"], cov["tlc_runs"] = r.distinct, r.generated, runs
     return r.records
 
@@ -267,10 +270,14 @@ def run(ctx):
         if wild_failed:
             raise ToolError(f"wild failed on {len(wild_failed)} scripts that GNU ld accepts: {wild_failed[:3]}")
         # ---- version tables: TLC-checked consistency of every wild output; sanity on GNU ld's
-        bad_ld, _ = validate_tables(d, obs_ld[:300], "ld")
+        from concurrent.futures import ThreadPoolExecutor
+        with ThreadPoolExecutor(max_workers=2) as ex:
+            f_ld = ex.submit(validate_tables, d, obs_ld[:300], "ld")
+            f_w = ex.submit(validate_tables, d, obs_wild, "wild")
+            bad_ld, _ = f_ld.result()
+            bad_w, obs_states = f_w.result()
         if bad_ld:
             raise ToolError(f"VersionTables predicates reject GNU ld's own outputs (predicate wrong): {list(bad_ld.items())[:3]}")
-        bad_w, obs_states = validate_tables(d, obs_wild, "wild")
         for k, probs in sorted(bad_w.items()):
             rec, sc, w_out, text = by_id[k]
             for pr in probs:
